@@ -14,6 +14,7 @@ An expression tree is a nested tuple:
 from . import mir
 
 MAX_DEPTH = 40
+OPASSIGN = {"add_assign": "add", "sub_assign": "sub", "mul_assign": "mul", "div_assign": "div"}
 
 
 class Defs:
@@ -26,6 +27,8 @@ class Defs:
         self.whole = {}     # local -> list of (bb, idx, ("assign", rvalue) | ("call", term))
         self.partial = {}   # local -> list of (bb, idx, place, rvalue)   (assignments to projections)
         self.mut_borrowed = set()
+        self.opassign_calls = []   # (bb, ref_local, opname, term)
+        self.opassign = {}         # target local -> list of (bb, opname, operand)
         for bi, b in enumerate(self.blocks):
             if b["cleanup"]:
                 continue
@@ -43,11 +46,38 @@ class Defs:
                     self.mut_borrowed.add(r["p"]["l"])
             t = b["term"]
             if t["k"] == "call":
+                c0 = mir.callee_of(t)
+                if c0 is not None and c0["name"] in OPASSIGN and len(t["args"]) == 2:
+                    a0 = mir.op_place(t["args"][0])
+                    if a0 is not None and not a0["proj"]:
+                        self.opassign_calls.append((bi, a0["l"], c0["name"], t))
                 d = t["dest"]
                 if not d["proj"]:
                     self.whole.setdefault(d["l"], []).append((bi, len(b["stmts"]), ("call", t)))
                 else:
                     self.partial.setdefault(d["l"], []).append((bi, len(b["stmts"]), d, {"k": "callres", "t": t}))
+
+    def finish(self):
+        # resolve `_r = &mut _L; add_assign(move _r, v)` into an in-place update of _L
+        only_opassign_borrow = {}
+        for (bi, rl, name, t) in self.opassign_calls:
+            ds = self.whole.get(rl, [])
+            if len(ds) == 1 and ds[0][2][0] == "assign" and ds[0][2][1]["k"] == "ref" and ds[0][2][1]["mut"]:
+                tp = ds[0][2][1]["p"]
+                if not tp["proj"]:
+                    self.opassign.setdefault(tp["l"], []).append((bi, name, t["args"][1]))
+                    only_opassign_borrow.setdefault(tp["l"], set()).add(rl)
+        # a local whose only &mut borrows feed op-assign calls is not "arbitrarily mutated"
+        for L, refs in only_opassign_borrow.items():
+            n_borrows = 0
+            for b in self.blocks:
+                for s in b["stmts"]:
+                    if s["k"] == "assign" and s["r"]["k"] == "ref" and s["r"]["mut"] and not s["r"]["p"]["proj"] \
+                            and s["r"]["p"]["l"] == L:
+                        n_borrows += 1
+            if n_borrows == len(refs):
+                self.mut_borrowed.discard(L)
+        return self
 
     def single(self, l):
         d = self.whole.get(l, [])
@@ -62,7 +92,7 @@ _DEFS = {}
 def defs(body):
     k = id(body)
     if k not in _DEFS:
-        _DEFS[k] = Defs(body)
+        _DEFS[k] = Defs(body).finish()
     return _DEFS[k]
 
 
@@ -178,6 +208,15 @@ class Prov:
                     if x not in uniq:
                         uniq.append(x)
                 t = uniq[0] if len(uniq) == 1 else ("phi", tuple(uniq))
+            ops = self.d.opassign.get(l)
+            if ops:
+                g = mir.CFG(self.body) if not hasattr(self.body, "_cfg") else mir.cfg(self.body)
+                for (bi, name, operand) in ops:
+                    in_loop = bi in g.reachable_from(g.succ[bi][0]) if g.succ[bi] else False
+                    if in_loop or len(ops) > 1:
+                        t = ("unknown", "accumulated:_%d" % l)
+                        break
+                    t = ("call", "core::ops::%s" % OPASSIGN[name], OPASSIGN[name], (t, self.op_tree(operand, depth + 1)))
         finally:
             self._stack.discard(l)
         self._memo[l] = t
@@ -219,7 +258,7 @@ class Prov:
                 pb.ty = self.body.ty
                 sub = Prov.__new__(Prov)
                 sub.body = pb
-                sub.d = Defs(pb, pr["blocks"])
+                sub.d = Defs(pb, pr["blocks"]).finish()
                 sub.captures = None
                 sub._memo = {}
                 sub._stack = set()
@@ -309,6 +348,14 @@ def path_fields(t):
     if t[0] != "path":
         return None
     return tuple(x for x in t[2] if x != "*" and not x.startswith("as ") and not x.startswith("["))
+
+
+def named_fields(t):
+    """like path_fields but tuple indices are dropped as well"""
+    f = path_fields(t)
+    if f is None:
+        return None
+    return tuple(x for x in f if not x.isdigit())
 
 
 def path_root(t):
